@@ -291,6 +291,12 @@ def build_objects(ctx, counter):
             for b in m["els"]:
                 declared = [a, b] in m["densDecl"]
                 dd[L(b)] = PyFn(probe(dict(f="dens", s=a, t=b)) if declared else ZERO, counter, "dens %d->%d" % (a, b))
+            if (ctx.idx // 2) % 3 == 1 and len(m["els"]) < len(ctx.labels) and m["tgt"] in ("setfl_fs", "DL_POLY_EAM_fs"):
+                # the dictionary may know more neighbours than the table has elements (dictionaries shared between models):
+                # a density towards a species that is not tabulated is nowhere in a setfl / TABEAM file (the Excel writer lists
+                # every key of the dictionary as a column: not asserted either way)
+                foreign = [lab for lab in ctx.labels if lab not in [L(x) for x in m["els"]]][0]
+                dd[foreign] = PyFn(probe(dict(f="dens", s=a, t=a)), counter, "dens %d->foreign" % a)
             dens = dd
         else:
             dens = PyFn(probe(dict(f="dens", s=a, t=0)) if [a, 0] in m["densDecl"] else ZERO, counter, "dens %d" % a)
